@@ -203,6 +203,18 @@ def quadrature_table(fn_node):
                                     and any(isinstance(c_, ast.Call) and ast.unparse(c_.func).split(".")[-1] == "sum" and any(
                                         k_.arg == "axis" and isinstance(k_.value, ast.Constant) and k_.value.value == 1 for k_ in c_.keywords) for c_ in ast.walk(nf)):
                                 as_column = True
+                        # corners[:, k, ...] * table[:, k] for k = 0, 1, 2, added up: column k of the table weighs corner k
+                        ks_ = set()
+                        for u_ in ast.walk(nf):
+                            if isinstance(u_, ast.BinOp) and isinstance(u_.op, ast.Mult):
+                                for t_, o_ in ((u_.left, u_.right), (u_.right, u_.left)):
+                                    if isinstance(t_, ast.Subscript) and isinstance(t_.value, ast.Name) and t_.value.id == name_ and isinstance(t_.slice, ast.Tuple) \
+                                            and len(t_.slice.elts) == 2 and isinstance(t_.slice.elts[0], ast.Slice) and isinstance(t_.slice.elts[1], ast.Constant) \
+                                            and isinstance(o_, ast.Subscript) and isinstance(o_.slice, ast.Tuple) and len(o_.slice.elts) >= 2 \
+                                            and isinstance(o_.slice.elts[1], ast.Constant) and o_.slice.elts[1].value == t_.slice.elts[1].value:
+                                        ks_.add(t_.slice.elts[1].value)
+                        if ks_ == {0, 1, 2}:
+                            as_column = True
                         if as_column:
                             v = [[[x] for x in r] if len(set(r)) != 1 else r for r in v]       # the ragged form of the same table
                         else:
